@@ -8,6 +8,7 @@ import (
 	"fmt"
 	"hash/fnv"
 	"math/rand/v2"
+	"net"
 	"os"
 	"os/exec"
 	"path/filepath"
@@ -394,6 +395,71 @@ func c09NoHandler(dir string, res *ev.Result, tag string, cs *c09Case) {
 	res.Seen(fmt.Sprintf("no-handler|split%v", cs.Total > 4<<20))
 }
 
+// c09StopsReading: a peer answers its configuration and then stops reading its socket; the state is larger
+// than the socket buffers, so the runtime's synchronization message cannot be sent. Registration fails
+// cleanly within the bound, and a well-behaved plugin registers afterwards.
+func c09StopsReading(dir string, res *ev.Result, tag string) {
+	const reqTimeout = 700 * time.Millisecond
+	adaptation.SetPluginRequestTimeout(reqTimeout)
+	defer adaptation.SetPluginRequestTimeout(30 * time.Second)
+	what := map[string]any{"scenario": "peer stops reading after its configuration; 3 MB state", "request_timeout_ms": reqTimeout.Milliseconds()}
+	rt, err := rig.NewRuntime(dir)
+	if err != nil {
+		res.Note("runtime: %v", err)
+		return
+	}
+	cs := &c09Case{Pods: rep(2, 100), Ctrs: rep(50, 60<<10)}
+	rt.SetState(c09State(cs, tag))
+	done := make(chan error, 8)
+	rt.SyncDone = func(_ []*api.ContainerUpdate, err error) { done <- err }
+	if err := rt.Start(); err != nil {
+		res.Note("start: %v", err)
+		return
+	}
+	defer rt.Stop()
+	for len(done) > 0 {
+		<-done
+	}
+	rp := rig.NewRawPlugin("deaf", "10", 0)
+	var cut *rig.CutConn
+	rp.OnConfigure = func(context.Context, *api.ConfigureRequest) (*api.ConfigureResponse, error) {
+		cut.StallReads()
+		return &api.ConfigureResponse{}, nil
+	}
+	if err := rp.Dial(rt.Sock, func(c net.Conn) net.Conn { cut = rig.NewCutConn(c); return cut }); err != nil {
+		res.Note("%s: dial: %v", tag, err)
+		return
+	}
+	defer rp.Close()
+	go rp.Register(5 * time.Second)
+	select {
+	case err := <-done:
+		if err == nil {
+			res.Note("%s: the synchronization of a peer that does not read succeeded (state fitted the socket buffers?)", tag)
+			res.Inconcl()
+			return
+		}
+	case <-time.After(15*time.Second + 20*reqTimeout):
+		res.Violate("C09/hang", fmt.Sprintf("the synchronization of a peer that stopped reading neither completed nor failed (request timeout %v); goroutines:\n%s", reqTimeout, nriStacks()), what)
+		return
+	}
+	var events atomic.Int32
+	good := rig.NewPlugin("good", "20", 0, rig.Handlers{Any: func(api.Event, *api.PodSandbox, *api.Container) { events.Add(1) }})
+	d := make(chan struct{})
+	var cerr error
+	go func() { defer close(d); cerr = good.Connect(rt.Sock) }()
+	if rig.Await(d, 5*time.Second, 30*time.Second) == "hang" {
+		res.Violate("C09/hang", "after a peer that stopped reading was dropped during its synchronization, the next plugin cannot register; goroutines:\n"+nriStacks(), what)
+		return
+	}
+	defer good.StopStub()
+	if cerr != nil || !good.WaitSynced(20*time.Second) {
+		res.Violate("C09/not-activated", fmt.Sprintf("a well-behaved plugin after the dropped one did not get synchronized: %v", cerr), what)
+		return
+	}
+	res.Seen("peer-stops-reading-before-sync")
+}
+
 // c09Preinstalled: plugins launched by the runtime itself are synchronized during Start, one after the
 // other, with a state that has to be split; each must receive the complete state and the updates of
 // every one of them must reach the runtime.
@@ -493,6 +559,13 @@ func runC09(c *ev.ChildEnv, res *ev.Result) {
 	rig.QuietLogs()
 	adaptation.SetPluginRequestTimeout(30 * time.Second)
 	adaptation.SetPluginRegistrationTimeout(30 * time.Second)
+	if c.Batch%3 == 2 {
+		c.WAL("stops reading")
+		res.Eval()
+		d := c.Dir + "/deaf"
+		mkdirAll(d)
+		c09StopsReading(d, res, "deaf")
+	}
 	if c.Batch%3 == 1 {
 		for i, cs := range []*c09Case{{Name: "no-handler-split", Pods: rep(3, 200), Ctrs: rep(150, 60<<10)}, {Name: "no-handler-small", Pods: rep(3, 200), Ctrs: rep(4, 100)}} {
 			cs.finish()
